@@ -56,6 +56,11 @@ def ieval(e, env):
         if e.op in ('<<', '>>') and (b < 0 or b >= 64):
             raise OverflowError('shift count %d' % b)
         import operator as O
+        if e.op in ('/', '%'):
+            if b == 0:
+                raise OverflowError('division by zero')
+            q = abs(a) // abs(b) * (1 if (a >= 0) == (b >= 0) else -1)     # C: truncation towards zero
+            return q if e.op == '/' else a - q * b
         fn = {'+': O.add, '-': O.sub, '*': O.mul, '&': O.and_, '|': O.or_, '^': O.xor, '<<': O.lshift, '>>': O.rshift,
               '<': O.lt, '>': O.gt, '<=': O.le, '>=': O.ge, '==': O.eq, '!=': O.ne}[e.op]
         return int(fn(a, b))
@@ -553,6 +558,230 @@ def check_point_list_fsm(ctx, db):
     ctx.require('R-FSM classifier states', len(seen), 20)
 
 
+def check_point_list_decoder(ctx, db):
+    """R-ALGEBRA.pointlist: every arm of the point-list decoder, executed symbolically for K = 3 and 4 deltas (cursor
+    pointers as indices into a symbolic vertex array, every decoded delta a fresh symbol, the loop unrolled), produces
+    exactly the vertices the format defines: types 0/1 alternate horizontal/vertical 1-deltas (plus, for polygons, the
+    implicit vertex that closes with Manhattan edges), types 2-4 add each delta to the previous vertex, type 5 adds the
+    running sum of the deltas; the count returned and added to result.count equals the vertices stored."""
+    from .. import symdiff as S
+    f = db.fn('gdstk::oasis_read_point_list')
+    ctx.touch(f)
+    names = {c['v']: c['n'] for c in db.enum('gdstk::OasisPointList')['consts']}
+    sw = tables.switches_on(f, 'OasisPointList')[0]
+    READ2 = ('gdstk::oasis_read_2delta', 'gdstk::oasis_read_3delta', 'gdstk::oasis_read_gdelta')
+
+    class Stop(Exception):
+        pass
+
+    def mbase(m):
+        b = _strip_casts(m.child('base')) if m.child('base') is not None else None
+        while b is not None and b.k == 'MemberExpr' and not b.n:     # anonymous struct/union members are transparent
+            b = _strip_casts(b.child('base')) if b.child('base') is not None else None
+        return b
+
+    class PL(S.Algebra):
+        def __init__(self, K, closed, first):
+            S.Algebra.__init__(self, db, None)
+            self.K = K
+            self.mem = {-1: self.vec(S.atom('P0.x'), S.atom('P0.y'))}
+            self.ptr = {}
+            self.nd = 0
+            self.count_add = None
+            self.stores = []
+            self.env = {'closed': S.P(1 if closed else 0), 'num': S.P(K), 'scaling': S.atom('s'), 'byte': S.P(first)}
+            self.cache = {}
+
+        def deref(self, sub, bump_ok=True):
+            sub = _strip_casts(sub)
+            if sub.k == 'UnaryOperator' and sub.op in ('post++',):
+                nm = _strip_casts(sub.child('sub')).n
+                i = self.ptr[nm]
+                self.ptr[nm] = i + 1
+                return i
+            if sub.k == 'DeclRefExpr' and sub.n in self.ptr:
+                return self.ptr[sub.n]
+            raise S.Unsupported('pointer expression %s' % sub.text()[:40])
+
+        def load(self, i):
+            if i not in self.mem:
+                raise S.Unsupported('read of vertex %d before it is written' % i)
+            return self.mem[i]
+
+        def value(self, e, env):
+            e = _strip_casts(e)
+            if e is not None and e.k == 'UnaryOperator' and e.op == '*' and _strip_casts(e.child('sub')).k in ('UnaryOperator', 'DeclRefExpr') and (_strip_casts(e.child('sub')).n in self.ptr or _strip_casts(e.child('sub')).k == 'UnaryOperator'):
+                if e.id not in self.cache:
+                    self.cache[e.id] = self.load(self.deref(e.child('sub')))
+                return self.cache[e.id]
+            if e is not None and e.k == 'MemberExpr' and e.n and mbase(e) is not None and mbase(e).k == 'DeclRefExpr' and mbase(e).n in self.ptr:
+                v = self.load(self.ptr[mbase(e).n])
+                return v[1] if e.n == 'x' else v[2]
+            if e is not None and e.k == 'DeclRefExpr' and e.dk == 'enum':
+                return S.P(e.cv)
+            if e is not None and e.k == 'CallExpr' and e.callee == 'gdstk::oasis_read_1delta':
+                if e.id not in self.cache:
+                    self.nd += 1
+                    self.cache[e.id] = S.atom('d%d' % self.nd)
+                return self.cache[e.id]
+            if e is not None and e.k == 'BinaryOperator' and e.op in ('==', '!=', '&&', '||', '<', '>'):
+                a, b = self.value(e.child('lhs'), env), self.value(e.child('rhs'), env)
+                if not (S.is_const(a) and S.is_const(b)):
+                    raise S.Unsupported('symbolic comparison')
+                a, b = a.get((), 0), b.get((), 0)
+                return S.P(int({'==': a == b, '!=': a != b, '&&': bool(a) and bool(b), '||': bool(a) or bool(b), '<': a < b, '>': a > b}[e.op]))
+            if e is not None and e.k == 'UnaryOperator' and e.op == '!':
+                a = self.value(e.child('sub'), env)
+                return S.P(int(not a.get((), 0)))
+            return S.Algebra.value(self, e, env)
+
+        def store(self, i, v, comp=None):
+            if comp is None:
+                self.mem[i] = v
+            else:
+                old = self.mem.get(i, self.vec(S.atom('undef%d.x' % i), S.atom('undef%d.y' % i)))
+                self.mem[i] = self.vec(v, old[2]) if comp == 'x' else self.vec(old[1], v)
+            if i not in self.stores:
+                self.stores.append(i)
+
+        def run(self, stmts):
+            env = self.env
+            for st in stmts:
+                if st is None:
+                    continue
+                self.cache = {}
+                k = st.k
+                if k == 'CompoundStmt':
+                    self.run(st.c)
+                elif k == 'DeclStmt':
+                    for v in st.c:
+                        if v is None or v.k != 'VarDecl':
+                            continue
+                        init = v.child('init')
+                        if '*' in (v.t or ''):
+                            t = norm(init.text()) if init is not None else ''
+                            if t == '(result.items + result.count)':
+                                self.ptr[v.n] = 0
+                            elif init is not None and _strip_casts(init).k == 'BinaryOperator' and _strip_casts(init).op == '-' and _strip_casts(_strip_casts(init).child('lhs')).n in self.ptr and _strip_casts(_strip_casts(init).child('rhs')).cv is not None:
+                                self.ptr[v.n] = self.ptr[_strip_casts(_strip_casts(init).child('lhs')).n] - _strip_casts(_strip_casts(init).child('rhs')).cv
+                            else:
+                                raise S.Unsupported('cursor initialiser %s' % t)
+                        elif init is not None:
+                            env[v.n] = self.value(init, env)
+                elif k == 'CallExpr' and st.callee in READ2:
+                    self.nd += 1
+                    env[_strip_casts(st.args[1]).n] = S.atom('x%d' % self.nd)
+                    env[_strip_casts(st.args[2]).n] = S.atom('y%d' % self.nd)
+                elif k == 'CXXMemberCallExpr' and (st.callee or '').endswith('::ensure_slots'):
+                    continue
+                elif k == 'ForStmt':
+                    for _ in range(self.K):
+                        self.run([st.child('body')])
+                elif k == 'IfStmt':
+                    c = self.value(st.child('cond'), env)
+                    if not S.is_const(c):
+                        raise S.Unsupported('symbolic branch')
+                    br = st.child('then') if c.get((), 0) else st.child('else')
+                    if br is not None:
+                        self.run([br])
+                elif k == 'UnaryOperator' and st.op in ('post++', '++'):
+                    t = _strip_casts(st.child('sub'))
+                    if t.n in self.ptr:
+                        self.ptr[t.n] += 1
+                    elif t.n in env and S.is_const(env[t.n]):
+                        env[t.n] = S.add(env[t.n], S.P(1))
+                    else:
+                        raise S.Unsupported('increment of %s' % t.n)
+                elif k in ('BinaryOperator', 'CXXOperatorCallExpr', 'CompoundAssignOperator') and (is_assign(st) or k == 'CompoundAssignOperator'):
+                    l = _strip_casts(st.args[0] if k == 'CXXOperatorCallExpr' else st.child('lhs'))
+                    r = st.args[1] if k == 'CXXOperatorCallExpr' else st.child('rhs')
+                    if norm(l.text()) == 'result.count':
+                        if st.op != '+=' or self.count_add is not None:
+                            raise S.Unsupported('result.count update')
+                        self.count_add = self.value(r, env)
+                        continue
+                    rv = self.value(r, env)
+                    if st.op == '+=':
+                        rv = self.vadd(self.value(l, env), rv)
+                    elif st.op != '=':
+                        raise S.Unsupported('operator %s' % st.op)
+                    if l.k == 'DeclRefExpr':
+                        env[l.n] = rv
+                    elif l.k == 'MemberExpr' and mbase(l) is not None and mbase(l).k == 'DeclRefExpr' and mbase(l).n in self.ptr:
+                        self.store(self.ptr[mbase(l).n], rv, l.n)
+                    elif l.k == 'MemberExpr' and mbase(l) is not None and mbase(l).k == 'DeclRefExpr':
+                        b = mbase(l).n
+                        old = env[b]
+                        env[b] = self.vec(rv, old[2]) if l.n == 'x' else self.vec(old[1], rv)
+                    elif l.k == 'UnaryOperator' and l.op == '*':
+                        self.store(self.deref(l.child('sub')), rv)
+                    else:
+                        raise S.Unsupported('store to %s' % l.text()[:40])
+                elif k in ('BreakStmt', 'NullStmt'):
+                    continue
+                elif k == 'ReturnStmt':
+                    raise Stop()
+                else:
+                    raise S.Unsupported('statement %s `%s`' % (k, st.text()[:50]))
+
+    def spec(alg, name, K, closed):
+        s_ = S.atom('s')
+        vs = [alg.vec(S.atom('P0.x'), S.atom('P0.y'))]
+        acc = alg.vec(S.P(0), S.P(0))
+        horiz = name == 'ManhattanHorizontalFirst'
+        for k in range(1, K + 1):
+            prev = vs[-1]
+            if name in ('ManhattanHorizontalFirst', 'ManhattanVerticalFirst'):
+                d = S.mul(S.atom('d%d' % k), s_)
+                vs.append(alg.vec(S.add(prev[1], d), prev[2]) if horiz else alg.vec(prev[1], S.add(prev[2], d)))
+                horiz = not horiz
+            else:
+                dv = alg.vec(S.mul(s_, S.atom('x%d' % k)), S.mul(s_, S.atom('y%d' % k)))
+                if name == 'Relative':
+                    acc = alg.vadd(acc, dv)
+                    dv = acc
+                vs.append(alg.vadd(prev, dv))
+        if closed and name in ('ManhattanHorizontalFirst', 'ManhattanVerticalFirst'):
+            prev = vs[-1]
+            vs.append(alg.vec(vs[0][1], prev[2]) if horiz else alg.vec(prev[1], vs[0][2]))
+        return vs[1:]
+
+    n = 0
+    seen = set()
+    for labels, stmts, top in tables.switch_arms(sw):
+        for lab in labels:
+            if not isinstance(lab, int) or lab not in names:
+                continue
+            name = names[lab]
+            seen.add(name)
+            bad = None
+            for K in (3, 4):
+                for closed in (False, True):
+                    alg = PL(K, closed, lab)
+                    try:
+                        try:
+                            alg.run(stmts)
+                        except Stop:
+                            pass
+                    except (S.Unsupported, KeyError) as ex:
+                        raise AnalysisBroken('oasis_read_point_list/%s: decoder arm not interpretable: %s' % (name, ex))
+                    want = spec(alg, name, K, closed)
+                    got = [alg.mem.get(i) for i in range(len(want))]
+                    for i, (g_, w_) in enumerate(zip(got, want)):
+                        if g_ is None or not alg.equal(g_, w_):
+                            bad = bad or '%d deltas%s: vertex %d is %s, the format defines %s' % (K, ', polygon' if closed else '', i + 1, alg.render(g_) if g_ is not None else 'never stored', alg.render(w_))
+                    extra = [i for i in alg.mem if i >= len(want)]
+                    if extra:
+                        bad = bad or '%d deltas: %d vertices stored, the format defines %d' % (K, len(alg.mem) - 1, len(want))
+                    if alg.count_add is None or not S.is_const(alg.count_add) or alg.count_add.get((), 0) != len(want):
+                        bad = bad or '%d deltas%s: result.count grows by %s but %d vertices are stored' % (K, ', polygon' if closed else '', alg.render(alg.count_add) if alg.count_add is not None else 'nothing', len(want))
+                    n += 1
+            ctx.check(bad is None, 'R-ALGEBRA.pointlist', 'oasis_read_point_list/%s' % name, top.loc(), 'the decoded vertices equal the format\'s definition for 3 and 4 deltas, open and closed', bad)
+    if len(seen) != 6:
+        raise AnalysisBroken('oasis_read_point_list: %d of the 6 list types have a decoder arm' % len(seen))
+    ctx.require('R-ALGEBRA.pointlist symbolic runs', n, 24)
+
+
 def check_gds_real(ctx, db):
     e, d = db.fn('gdstk::gdsii_real_from_double'), db.fn('gdstk::gdsii_real_to_double')
     ctx.touch(e)
@@ -608,11 +837,12 @@ def run(ctx):
     check_reals(ctx, db)
     check_point_lists(ctx, db)
     check_point_list_fsm(ctx, db)
+    check_point_list_decoder(ctx, db)
     check_gds_real(ctx, db)
 
 
 MANIFEST = dict(
-    text='Decides structural necessary conditions of lossless number codecs: both varint overflow guards are exact over every reachable decoder state x byte value (no silent wrap, no false overflow on terminal bytes, shift < 64, Overflow flagged); writer and reader packing parameters agree at every call-site pair and inside the two internal routines; for every sign/equality class of (x, y) the 2-/3-/g-delta writers composed with the readers are the identity and the direction/point-list/real type codes equal the specification; the six byte-swap bodies are exactly the byte-reversal permutation (bit-provenance domain) under opposite host guards; the real-number writer forms have inverse reader arms and doubles are cast only after proved integral; closed Manhattan lists drop/re-create exactly one delta; the point-list type classifier, interpreted as a finite automaton over delta classes (horizontal, vertical, two diagonals, general), ends in every reachable state with a list type whose delta codec can represent all deltas seen and, for closed lists, the closing edge; the 8-byte-real constants are paired and the exponent uses a normalising idiom. The one-ulp claim and behaviour at 64-bit/exponent boundaries of floating arithmetic are not decided.',
+    text='Decides structural necessary conditions of lossless number codecs: both varint overflow guards are exact over every reachable decoder state x byte value (no silent wrap, no false overflow on terminal bytes, shift < 64, Overflow flagged); writer and reader packing parameters agree at every call-site pair and inside the two internal routines; for every sign/equality class of (x, y) the 2-/3-/g-delta writers composed with the readers are the identity and the direction/point-list/real type codes equal the specification; the six byte-swap bodies are exactly the byte-reversal permutation (bit-provenance domain) under opposite host guards; the real-number writer forms have inverse reader arms and doubles are cast only after proved integral; closed Manhattan lists drop/re-create exactly one delta; the point-list type classifier, interpreted as a finite automaton over delta classes (horizontal, vertical, two diagonals, general), ends in every reachable state with a list type whose delta codec can represent all deltas seen and, for closed lists, the closing edge; every arm of the point-list decoder, executed symbolically for 3 and 4 deltas (cursors as indices into a symbolic vertex array, fresh symbol per decoded delta, open and closed), stores exactly the vertices the format defines and accounts for exactly that many; the 8-byte-real constants are paired and the exponent uses a normalising idiom. The one-ulp claim and behaviour at 64-bit/exponent boundaries of floating arithmetic are not decided.',
     note='Trusted: clang front end, gx, sa rules. Guards and writer conditions are pure integer expressions evaluated over finite abstract state sets (decoder states derived from the initialiser and step constants; sign/equality classes of (x, y)); no library code is executed. An exponent computation outside the two confirmed idioms is reported as analysis-broken (to be re-confirmed), a ceil without the bump as a violation.',
     technique='exhaustive evaluation of pure guard predicates over the reachable abstract decoder states + decision-table composition (writer o reader) + bit-provenance abstract domain for swaps + paired-constant rules',
     design='§4 C19')
